@@ -888,7 +888,34 @@ func Rnd(a *Term) *Term {
 	if a.gok && a.gk+a.gm <= 52 && a.gk <= 1000 {
 		return a // on a dyadic grid fine enough to be exactly representable
 	}
+	if isFloatValued(a) {
+		return a
+	}
+	// x + x is exact for a binary64 x (overflow to infinity is outside the model)
+	if a.Op == OAdd && len(a.Args) == 2 && a.Args[0] == a.Args[1] && isFloatValued(a.Args[0]) {
+		return a
+	}
 	return mk(&Term{Op: ORnd, Sort: SReal, Args: []*Term{a}}, key(ORnd, a))
+}
+
+// isFloatValued: the term denotes a binary64 value on every assignment.
+func isFloatValued(a *Term) bool {
+	switch a.Op {
+	case ORnd:
+		return true
+	case OConst:
+		if a.Sort != SReal {
+			return false
+		}
+		f, exact := a.RV.Float64()
+		_ = f
+		return exact
+	case ONeg:
+		return isFloatValued(a.Args[0])
+	case OIte:
+		return isFloatValued(a.Args[1]) && isFloatValued(a.Args[2])
+	}
+	return false
 }
 
 func Abs(a *Term) *Term {
